@@ -3,6 +3,7 @@
 package gen
 
 import (
+	"reflect"
 	"fmt"
 	"sort"
 	"strings"
@@ -21,7 +22,11 @@ type SNode struct {
 	Kids      []*SNode
 	Cases     []*SCase // choice: in sorted case-ident order (the order Choice.CaseIdents gives)
 	NonConfig bool     // container / list stated "config false"
+	LeafList  bool     // leaf: it is a leaf-list; its text is the items joined by ListSep
 }
+
+// ListSep separates the items of a leaf-list in the text form of its value.
+const ListSep = "\x1e"
 
 // SCase is a case of a choice; Shorthand means it is written as a bare node under the choice.
 type SCase struct {
@@ -52,6 +57,8 @@ type Opts struct {
 	MultiKeys bool
 	NonConfig bool // some containers / lists are config false
 	LeafNonConfig bool // some leaves (not keys) of config nodes are config false
+	LeafLists bool // some leaves are leaf-lists
+	NoZero    bool // no int value 0 (struct-backed stores cannot tell 0 from unset)
 }
 
 var nameSeq int
@@ -118,6 +125,9 @@ func genLeaf(r *core.Rng, o Opts, name string) *SNode {
 	if o.LeafNonConfig && o.NonConfig && r.Chance(25) {
 		l.NonConfig = true
 	}
+	if o.LeafLists && l.Default == nil && r.Chance(22) {
+		l.LeafList = true
+	}
 	return l
 }
 
@@ -127,7 +137,11 @@ func Yang(kids []*SNode, indent string) string {
 	for _, s := range kids {
 		switch s.Kind {
 		case "leaf":
-			fmt.Fprintf(&b, "%sleaf %s { type %s;", indent, s.Name, s.Type)
+			kw := "leaf"
+			if s.LeafList {
+				kw = "leaf-list"
+			}
+			fmt.Fprintf(&b, "%s%s %s { type %s;", indent, kw, s.Name, s.Type)
 			if s.NonConfig {
 				b.WriteString(" config false;")
 			}
@@ -173,9 +187,26 @@ func Module(name string, kids []*SNode) string {
 var keyAlphabet = []string{"a", "b", "k", "x1", "zz", "A"}
 var hostileKeys = []string{"a/b", "a,b", "a=b", "50%", "a+b", "a b", "é", "日本", "x?y", "a&b", "q\"q", "%2F", "", "a#b", "..", "a;b"}
 
-func genLeafVal(r *core.Rng, s *SNode) string {
+func genLeafVal(r *core.Rng, s *SNode, noZero ...bool) string {
+	nz := len(noZero) > 0 && noZero[0]
+	if s.LeafList {
+		n := 1 + r.Intn(4)
+		var items []string
+		for i := 0; i < n; i++ {
+			items = append(items, genItemVal(r, s, nz))
+		}
+		return strings.Join(items, ListSep)
+	}
+	return genItemVal(r, s, nz)
+}
+
+func genItemVal(r *core.Rng, s *SNode, noZero bool) string {
 	if s.Type == "int32" {
-		return fmt.Sprint(r.Intn(50) - 10)
+		v := r.Intn(50) - 10
+		if v == 0 && noZero {
+			v = 41 // struct-backed stores cannot tell 0 from unset
+		}
+		return fmt.Sprint(v)
 	}
 	return core.Pick(r, []string{"v", "w", "hello", "x y", "", "é", "0"}) + fmt.Sprint(r.Intn(5))
 }
@@ -204,7 +235,7 @@ func GenData(r *core.Rng, s *SNode, density int, o Opts) *DNode {
 	switch s.Kind {
 	case "leaf":
 		if r.Chance(density) {
-			v := genLeafVal(r, s)
+			v := genLeafVal(r, s, o.NoZero)
 			d.Leaf = &v
 		}
 	case "cont":
@@ -574,6 +605,15 @@ func Overlap(r *core.Rng, kids []*SNode, src, tgt []*DNode) {
 }
 
 func leafGo(s *SNode, v string) interface{} {
+	if s.LeafList {
+		one := *s
+		one.LeafList = false
+		var out []interface{}
+		for _, it := range strings.Split(v, ListSep) {
+			out = append(out, leafGo(&one, it))
+		}
+		return out
+	}
 	if s.Type == "int32" {
 		var n int
 		fmt.Sscan(v, &n)
@@ -644,6 +684,16 @@ func FromMap(kids []*SNode, in interface{}, unordered *bool) []*DNode {
 		switch s.Kind {
 		case "leaf":
 			t := fmt.Sprint(v)
+			if rv := reflect.ValueOf(v); rv.Kind() == reflect.Slice {
+				var items []string
+				for k := 0; k < rv.Len(); k++ {
+					items = append(items, fmt.Sprint(rv.Index(k).Interface()))
+				}
+				if len(items) == 0 {
+					continue
+				}
+				t = strings.Join(items, ListSep)
+			}
 			out[i].Leaf = &t
 		case "cont":
 			out[i].Present = true
